@@ -55,7 +55,11 @@ SelSteps(D, P, steps, k, ctx) ==
                                      c \in ctx \/ (Anc(D, c) \cap ctx) # {}}
        IN SelSteps(D, P, steps, k + 1, nxt)
 
-PathSel(D, P, X) == SelSteps(D, P, X.steps, 1, {0})
+\* X.pre: a predicate on the final step that is not the last one - `path[@k='1'][last predicate]`.  Only the last predicate
+\* is split off (XPathSplit.tla); this one stays in the path the candidates are marked with, so it is decided when the
+\* element opens, from its attributes.
+PreOK(D, c, X) == X.pre = "" \/ (c > 0 /\ D.at[c] = "1")
+PathSel(D, P, X) == {c \in SelSteps(D, P, X.steps, 1, {0}) : PreOK(D, c, X)}
 
 PredOK(D, P, c, X) ==
   CASE X.pk = "none"   -> TRUE
